@@ -23,7 +23,7 @@ PROPS = {
              "subpool^3, from type-directed random arguments, or from the len/substring unit-consistency sweep; the "
              "observed outcome is compared with the reference builtin (bit-exact value, error where the reference "
              "says error); non-trivial = the reference claims an outcome (not `unclaimed`); distinct = distinct "
-             "(name, argument) renderings Also: tuples of 50-600 elements and strings of 200-4000 characters as arguments; 18 names that must be unknown (aliases under foreign namespaces, feature-gated builtins); str::from of a non-string equals the Display of the value, alone and as a tuple element; every builtin on every whole number -1100..1100 (integer and float, alone and paired with 2, 10, 0.5).",
+             "(name, argument) renderings Also: tuples of 50-600 elements and strings of 200-4000 characters as arguments; 18 names that must be unknown (aliases under foreign namespaces, feature-gated builtins); str::from of a non-string equals the Display of the value, alone and as a tuple element; every builtin on every whole number -1100..1100 (integer and float, alone and paired with 2, 10, 0.5); a third of the random numeric arguments within 1e-9 … 0.25 of the special points of the math functions; boundary-sized tuples and strings.",
         assumptions=COMMON + [
             "f64 library functions and Unicode case mapping / trimming are std's on both sides; only the wiring is checked",
             "not claimed (accepted, any non-panicking outcome): shifts outside 0..63, min/max with NaN or of an empty tuple, "
@@ -49,7 +49,7 @@ PROPS = {
              "damaged programs); the reference recogniser classifies it ill-formed (unbalanced parentheses / operator "
              "without operand / juxtaposed operands); a violation needs the real code to precompile it to a tree of "
              "correct arity AND to evaluate it successfully in one of 12 contexts (or to accept unbalanced / report "
-             "balanced input as unbalanced); non-trivial = classified ill-formed; distinct = distinct source texts Each sequence is judged single-spaced, tight and (a sample) under a separator plan; accepted trees with a wrong-arity node are evaluated through both paths in the 12 contexts and must fail; text constants of the tree are bound as variable names there; an assignment operator without any left operand is ill-formed.",
+             "balanced input as unbalanced); non-trivial = classified ill-formed; distinct = distinct source texts Each sequence is judged single-spaced, tight and (a sample) under a separator plan; accepted trees with a wrong-arity node are evaluated through both paths in the 12 contexts and must fail; text constants of the tree are bound as variable names there; an assignment operator without any left operand is ill-formed; damaged programs nested 60-140 groups deep with unbalanced parentheses; the byte-order-mark word.",
         assumptions=COMMON + [
             "ill-formed inputs whose tree has correct arity but evaluate in none of the 12 probe contexts are counted as "
             "unconfirmed, not reported",
@@ -60,7 +60,7 @@ PROPS = {
              "bound with e instantiated by a literal / variable / assignment / recording call, every A16 token "
              "sequence containing a separator, and random nested sequence programs; for well-formed ones the tree "
              "must equal the reference chain-of-tuples AST and value, final context and ordered effect log must "
-             "equal the reference evaluator's; non-trivial = classified well-formed; distinct = distinct source texts Each well-formed sequence also runs through the read-only path, a tuple-typed entry point and the context-free eval(); sequences nested 10-60 levels and flat ones of 100-700 elements; a quarter under random separator plans; text elements containing separators, comment markers, quotes and trailing backslashes.",
+             "equal the reference evaluator's; non-trivial = classified well-formed; distinct = distinct source texts Each well-formed sequence also runs through the read-only path, a tuple-typed entry point and the context-free eval(); sequences nested 10-60 levels and flat ones of 100-700 elements; a quarter under random separator plans; text elements containing separators, comment markers, quotes and trailing backslashes; variables named `_`, min, math::pi; nests of 60-140 groups, also with a parenthesis too many / too few.",
         assumptions=COMMON,
     ),
     "C08": dict(
@@ -70,7 +70,7 @@ PROPS = {
              "a RecordingContext; the triple (result, final context, ordered log of user-function calls and set_value "
              "attempts) must equal the reference interpreter's, and the H2 hook trace must satisfy the schedule "
              "specification (children once, left to right, then apply; stop in the failing application); "
-             "non-trivial = the reference claims the program; distinct = distinct (source, initial context) Also per program: the read-only path (effects + schedule), one of the 14 typed mutable entry points (effects + final context), a second use of the same tree after an evaluation against a different context; long programs (50-300 statements), programs nested 130-330 levels, sequences of every size 2..70, trees evaluated 20-80 times on one context; type-directed programs that mostly run to completion; every program also on the bare HashMapContext (result + final context); user functions that insist on a tuple, call the library themselves or fail with another function's not-found error; NaN values; trees received through clone_from.",
+             "non-trivial = the reference claims the program; distinct = distinct (source, initial context) Also per program: the read-only path (effects + schedule), one of the 14 typed mutable entry points (effects + final context), a second use of the same tree after an evaluation against a different context; long programs (50-300 statements), programs nested 130-330 levels, sequences of every size 2..70, trees evaluated 20-80 times on one context; type-directed programs that mostly run to completion; every program also on the bare HashMapContext (result + final context); user functions that insist on a tuple, call the library themselves or fail with another function's not-found error; NaN values; trees received through clone_from; an evaluated tree meeting a context that shadows the builtins; long scripts whose last statement does not parse (no effect at all); text with CR inside literals; functions nesting 66-77 evaluations.",
         assumptions=COMMON + [
             "not generated: `x op= e` whose e assigns x (two documented readings differ)",
             "get_value reads are logged but not order-compared with effects",
@@ -83,7 +83,7 @@ PROPS = {
              "the mutable result), the context must be observably unchanged with no set_value call, the H2 immutable "
              "schedule must be a prefix of the mutable one; also a default-set_value context through the mutable "
              "path and both empty contexts; non-trivial = the reference claims the program; distinct = distinct "
-             "(source, initial context) Also: every A16 token sequence up to length 4/5 and damaged programs (also ones the reference does not claim) with the projection decided by the H2 hook; C12's 48-entry-point checker on typed programs, numeric-looking strings and BOM-prefixed strings; deep and sized programs; a third of the programs: the evaluated tree is renamed through the mutable iterators and both paths must follow; run-time failures next to missing operands.",
+             "(source, initial context) Also: every A16 token sequence up to length 4/5 and damaged programs (also ones the reference does not claim) with the projection decided by the H2 hook; C12's 48-entry-point checker on typed programs, numeric-looking strings and BOM-prefixed strings; deep and sized programs; a third of the programs: the evaluated tree is renamed through the mutable iterators and both paths must follow; run-time failures next to missing operands; the string-level mutable entry point equals the precompiled mutable run; literals with CR / CR+LF.",
         assumptions=COMMON,
     ),
     "C09": dict(
@@ -93,7 +93,7 @@ PROPS = {
              "user function named n {absent, present} x variable named n {absent, present} x 10 call forms, each "
              "through 4 entry points (string/precompiled x immutable/mutable), plus random nested call chains; result, "
              "callee (recorded user-function calls) and argument shape must equal the reference lookup model; "
-             "non-trivial = the reference claims the cell; distinct = distinct (cell, entry point) (now 16 call forms incl. boolean / float literals, three arguments, an assignment inside the argument, Unicode blanks; user function absent / present / present-but-failing; one precompiled tree per form reused across configurations; 16 non-builtin names incl. builtins under foreign namespaces and feature-gated names; a fourth user-function mode (present but failing with another function's FunctionIdentifierNotFound: its error is the outcome); context kinds after 256 and after 65,536 clear_functions.)",
+             "non-trivial = the reference claims the cell; distinct = distinct (cell, entry point) (now 16 call forms incl. boolean / float literals, three arguments, an assignment inside the argument, Unicode blanks; user function absent / present / present-but-failing; one precompiled tree per form reused across configurations; 16 non-builtin names incl. builtins under foreign namespaces and feature-gated names; a fourth user-function mode (present but failing with another function's FunctionIdentifierNotFound: its error is the outcome); context kinds after 256 and after 65,536 clear_functions, clear_functions while a clone is alive, every function defined twice.)",
         assumptions=COMMON + ["a user function that itself returns FunctionIdentifierNotFound is not generated (it is the "
                               "Context trait's own 'undefined' signal)"],
     ),
@@ -102,7 +102,7 @@ PROPS = {
              "kind, hostile character soup; all 24 string-level and 24 tree-level entry points are called from clones "
              "of the same context and compared (Debug-structurally, NaN-aware) with the projection of the untyped "
              "evaluation; final contexts of mutable variants, repeatability and the precompile-error rule are checked "
-             "too; non-trivial = every pair; distinct = distinct (string, context) A third of the cases re-use a tree precompiled earlier and already evaluated under another context (some contexts shadow builtins); deep nesting (130-900), BOM prefixes, plausible pre-seeded constant names; trees received through clone_from; the 14 typed context entry points on up to four inner nodes per tree; a variable named like the whole source text; text-literal assignment targets.",
+             "too; non-trivial = every pair; distinct = distinct (string, context) A third of the cases re-use a tree precompiled earlier and already evaluated under another context (some contexts shadow builtins); deep nesting (130-900), BOM prefixes, plausible pre-seeded constant names; trees received through clone_from; the 14 typed context entry points on up to four inner nodes per tree; a variable named like the whole source text; text-literal assignment targets; 60 pairs of equal-length sources colliding under 32-bit digests (truncated std hash, FNV-1a, djb2, sdbm, 31-polynomial) evaluated back to back; user functions nesting up to 80 string evaluations.",
         assumptions=COMMON + ["implementation against implementation: the untyped string-level mutable evaluation is the base"],
     ),
     "C14": dict(
@@ -111,7 +111,7 @@ PROPS = {
              "depth 12; the 5 immutable and 5 mutable iterators must equal the occurrence list of the generating AST; "
              "unknown-identifier errors must name listed identifiers; an injective renaming through the mutable "
              "iterators plus the same renaming of the context must not change the result; non-trivial = the program "
-             "precompiles; distinct = distinct source texts Also: partially advanced iterators finished through for_each / fold / last / count / nth; renamed source must precompile to the iterator-renamed tree; renaming per namespace; identifiers overlapping between the namespaces; non-ASCII identifiers whose low byte is an operator character; a quarter of the programs tight or under separator plans; identifiers containing U+FEFF / U+200B; literals respelled in hexadecimal / exponent form, also directly in front of a sign; interpolation-style text naming variables of the program; dotted names next to tuple-valued prefixes.",
+             "precompiles; distinct = distinct source texts Also: partially advanced iterators finished through for_each / fold / last / count / nth; renamed source must precompile to the iterator-renamed tree; renaming per namespace; identifiers overlapping between the namespaces; non-ASCII identifiers whose low byte is an operator character; a quarter of the programs tight or under separator plans; identifiers containing U+FEFF / U+200B; literals respelled in hexadecimal / exponent form, also directly in front of a sign; interpolation-style text naming variables of the program; dotted names next to tuple-valued prefixes; variables in the builtin namespaces and named like constants; 15 marker-like first identifiers x every binary operator without blanks.",
         assumptions=COMMON,
     ),
     "C06": dict(
@@ -120,7 +120,7 @@ PROPS = {
              "10^k +-1, random, decimal / hex / leading zeros, embedded without spaces), a finite non-negative double "
              "in up to 8 renderings x 6 embeddings, or a word (generated identifiers and near-literals must be "
              "identifiers that can be assigned and read); the oracle is the round trip through the harness's own "
-             "renderers; non-trivial = every literal; distinct = distinct literal values Also: 100 two-character strings over a hostile set, 22 multi-character escape-like sequences (all must be errors), leading-dot exponent renderings, 40 quote / slash / star look-alikes and format characters, zero-width characters inside words; words with doubled or foreign radix prefixes; an identifier glued to a string literal is that function applied to that string; every literal also at the end of a 30-assignment program (its own `<mantissa>e` head used as an identifier before), after `1e+` / `2.5E-`, and with its inner blanks doubled; digit-heavy words up to 20 characters.",
+             "renderers; non-trivial = every literal; distinct = distinct literal values Also: 100 two-character strings over a hostile set, 22 multi-character escape-like sequences (all must be errors), leading-dot exponent renderings, 40 quote / slash / star look-alikes and format characters, zero-width characters inside words; words with doubled or foreign radix prefixes; an identifier glued to a string literal is that function applied to that string; every literal also at the end of a 30-assignment program (its own `<mantissa>e` head used as an identifier before), after `1e+` / `2.5E-`, and with its inner blanks doubled; digit-heavy words up to 20 characters; strings, identifiers and digit runs of boundary lengths (1 … 2048); comments inside would-be signed exponents.",
         assumptions=COMMON + ["Rust's float formatting/parsing (shortest round trip) is trusted to build the renderings; every "
                               "rendering is parsed back by the harness before the implementation is asked",
                               "integer / hex words outside the 64-bit range and floats overflowing to infinity are not claimed"],
@@ -131,7 +131,7 @@ PROPS = {
              "random separator plans (each gap independently: empty where no fusion is possible, any of the 25 "
              "White_Space characters, block and line comments); both renderings must precompile to equal trees or "
              "fail with equal errors; plus unterminated-comment and comment-marker-inside-string rules; non-trivial = "
-             "the canonical rendering re-lexes to the sequence; distinct = distinct token sequences The canonical rendering of a well-formed sequence is additionally anchored to the reference parser; comment bodies are random (non-ASCII, CR, nested markers, control and bidirectional characters); typographic-quote words.",
+             "the canonical rendering re-lexes to the sequence; distinct = distinct token sequences The canonical rendering of a well-formed sequence is additionally anchored to the reference parser; comment bodies are random (non-ASCII, CR, nested markers, control and bidirectional characters); typographic-quote words; words ending in `::`; one separator of 16 … 140,000 characters.",
         assumptions=COMMON + ["a separator plan is used only if the reference lexer re-lexes the rendering to the same tokens "
                               "(conservative empty-gap rule of DESIGN 3.1)"],
     ),
@@ -144,7 +144,7 @@ PROPS = {
              "effect, and every left-behind clone original) are compared; the BFS applies every operation from every "
              "(abstract state, last-operation kind) key reached within the key budget, replaying each history on a "
              "fresh context; random histories of 50-300 steps over 5 names extend it; non-trivial = a BFS key or a "
-             "completed random history; distinct = distinct keys / histories Also: contexts with 10-300 variables and 10-200 functions (type-changing assignments, clears, re-use), histories over 20 names, clone_from into a dirty target, rebinding of functions, user functions named like builtins, contexts built by context_map! and math_consts_context! followed by every operation; functions named like the variables; 17 plausible pre-defined names and access-path look-alikes of every bound name (`a.0`, `a[0]`, `a::0`) must read as unknown variables in every state; one context with 300,000 / 1,000,000 distinct names (plus words colliding under common string hashes), each read back; literals differing only in inner blanks.",
+             "completed random history; distinct = distinct keys / histories Also: contexts with 10-300 variables and 10-200 functions (type-changing assignments, clears, re-use), histories over 20 names, clone_from into a dirty target, rebinding of functions, user functions named like builtins, contexts built by context_map! and math_consts_context! followed by every operation; functions named like the variables; 17 plausible pre-defined names and access-path look-alikes of every bound name (`a.0`, `a[0]`, `a::0`) must read as unknown variables in every state; one context with 300,000 / 1,000,000 distinct names (plus words colliding under common string hashes), each read back; literals differing only in inner blanks; a counting user function across clones (each clone counts its own calls); reserved-looking names (`_`, math::pi, min, if, x1 / x01).",
         assumptions=COMMON + ["the BFS is complete only up to its key budget per first operation and history length 6"],
     ),
     "C01": dict(
@@ -155,7 +155,7 @@ PROPS = {
              "Clone/PartialEq (with the H1 parser-precondition monitor), hostile strings through all 48 entry points, "
              "contexts built through new / set_value / clone / clear / context_map! / math_consts_context!; every "
              "workload runs in the release profile and in the unoptimised dev profile (overflow checks and debug "
-             "assertions on); non-trivial = every case (the only oracle is 'returned'); distinct = distinct inputs Added later: Display/Debug of 19 constructed and 19 evaluated errors around every pool value and long non-ASCII strings in all byte alignments; every phase of the C10 and C03 checks under the panic monitor; words made of the numeric characters of all scripts; user functions that re-enter the library or pass on another function's not-found error.",
+             "assertions on); non-trivial = every case (the only oracle is 'returned'); distinct = distinct inputs Added later: Display/Debug of 19 constructed and 19 evaluated errors around every pool value and long non-ASCII strings in all byte alignments; every phase of the C10 and C03 checks under the panic monitor; words made of the numeric characters of all scripts; user functions that re-enter the library or pass on another function's not-found error; every name the working tree's builtin table matches on (read from src/function/builtin.rs by the driver) with the full argument matrix; error constructors with degenerate arguments.",
         assumptions=COMMON + ["worker threads run with an 8 MiB stack (the Linux main-thread default); the README bounds input length "
                               "because parsing and evaluation recurse",
                               "allocation failure is outside the property (README)",
@@ -172,7 +172,7 @@ PROPS = {
              "the shared objects from several threads; the same workload scaled down runs under Miri (one schedule per "
              "seed; UB and data races fatal) and, in the thorough tier, under ThreadSanitizer; Send + Sync of the 8 "
              "public types is decided by rustc on /verif/sendsync; non-trivial = every evaluation; distinct = distinct "
-             "interleaving signatures (hash of the thread-id sequence of the SlowContext log per round) Later additions: 13 expressions incl. 40/24/20-element nodes, 16 distinct builtins per expression, long identifiers; a context that lives through all rounds; contexts built on the worker threads; clones of shared trees are evaluated; only exactly specified builtins (Miri perturbs inexact float intrinsics); per round one shared tree assigning identifiers new to the process evaluated by all threads at once on their own contexts, 96 string-level evaluations of distinct sources per thread, a slow shared function called with 0.0 / -0.0 at overlapping times; min / max / contains_any on thousands of elements; a re-entrant user function racing with never-seen function names; a worker that makes no progress for 180 s (900 s under Miri) while others are unfinished is reported as a deadlock.",
+             "interleaving signatures (hash of the thread-id sequence of the SlowContext log per round) Later additions: 13 expressions incl. 40/24/20-element nodes, 16 distinct builtins per expression, long identifiers; a context that lives through all rounds; contexts built on the worker threads; clones of shared trees are evaluated; only exactly specified builtins (Miri perturbs inexact float intrinsics); per round one shared tree assigning identifiers new to the process evaluated by all threads at once on their own contexts, 96 string-level evaluations of distinct sources per thread, a slow shared function called with 0.0 / -0.0 at overlapping times; min / max / contains_any on thousands of elements; a re-entrant user function racing with never-seen function names; a worker that makes no progress for 180 s (900 s under Miri) while others are unfinished is reported as a deadlock; per round and thread its own arguments for text conversions, fractional powers (not under Miri), renderings of 64+-element tuples.",
         assumptions=COMMON + ["race detectors see only schedules that occurred (Miri: seeded; TSan/native: whatever the OS produced)",
                               "Send/Sync itself is the compiler's verdict, reported through the same interface"],
         profiles=[],
@@ -185,7 +185,7 @@ PROPS = {
              "subnormals, infinities, NaN, boundary ints, awkward strings and names, expression assignments, functions, "
              "builtin switch) serialized compactly or pretty and deserialized: variable map (floats by bit pattern), "
              "switch and absence of functions must survive; non-trivial = every round trip the transport itself "
-             "carries faithfully; distinct = distinct strings / serialized contexts Also: damaged / truncated serialized contexts interleaved (failed deserializations must leave nothing behind), tuples of 8-40 elements, hundreds of parentheses (nested, in strings, in comments), CR+LF in string literals, byte-order marks; function names differing from builtins only in case or by a look-alike letter.",
+             "carries faithfully; distinct = distinct strings / serialized contexts Also: damaged / truncated serialized contexts interleaved (failed deserializations must leave nothing behind), tuples of 8-40 elements, hundreds of parentheses (nested, in strings, in comments), CR+LF in string literals, byte-order marks; function names differing from builtins only in case or by a look-alike letter; every word of a serialized context becomes a variable name of a second context that must round-trip; escape look-alike text values; names equal under a normalisation.",
         assumptions=COMMON + ["built with cargo +1.81.0 (only that registry holds ron 0.8.1)",
                               "ron has a single NaN token: NaN payload and sign are outside what the format can carry",
                               "a string or context ron itself cannot carry (checked with a plain String / Vec) is skipped"],
